@@ -6,7 +6,7 @@ From Coq Require Import ZArith List Bool Sorted.
 Import ListNotations.
 Require Import WnV.Base.Sx WnV.Model.Taxonomy WnV.Proofs.TaxSpec WnV.Proofs.TaxPaths
         WnV.Proofs.TaxReach WnV.Proofs.TaxAssembly.
-Require Import WnV.Proofs.AgendaProofs.
+Require Import WnV.Proofs.AgendaProofs WnV.Proofs.SimRoot.
 
 (* (1) hypernym_paths(x) is the set of all maximal simple hypernym chains from x,
    for every graph (cycles, self-loops), each listed once *)
@@ -209,4 +209,318 @@ Theorem C13_closure_loop_terminates_bound :
          closure_loop hyp fuel (hyp x) [] [] <> None.
 Proof. exact (@closure_loop_terminates_bound). Qed.
 Print Assumptions C13_closure_loop_terminates_bound.
+
+(* ---- roots / leaves are exactly the synsets without hypernyms / hyponyms, in the order of the synset list, each as often as listed *)
+Theorem C13_roots_spec :
+  forall (hyp : node -> list node) (syn : list node) (s : node),
+         In s (roots hyp syn) <-> In s syn /\ hyp s = [].
+Proof. exact (@roots_spec). Qed.
+Print Assumptions C13_roots_spec.
+
+Theorem C13_leaves_spec :
+  forall (hypo : node -> list node) (syn : list node) (s : node),
+         In s (leaves hypo syn) <-> In s syn /\ hypo s = [].
+Proof. exact (@leaves_spec). Qed.
+Print Assumptions C13_leaves_spec.
+
+Theorem C13_roots_sublist :
+  forall (hyp : node -> list node) (syn : list node), sublist (roots hyp syn) syn.
+Proof. exact (@roots_sublist). Qed.
+Print Assumptions C13_roots_sublist.
+
+Theorem C13_leaves_sublist :
+  forall (hypo : node -> list node) (syn : list node), sublist (leaves hypo syn) syn.
+Proof. exact (@leaves_sublist). Qed.
+Print Assumptions C13_leaves_sublist.
+
+Theorem C13_roots_count :
+  forall (hyp : node -> list node) (syn : list node) (s : Z),
+         count_occ Z.eq_dec (roots hyp syn) s =
+         match hyp s with
+         | [] => count_occ Z.eq_dec syn s
+         | _ :: _ => 0
+         end.
+Proof. exact (@roots_count). Qed.
+Print Assumptions C13_roots_count.
+
+Theorem C13_leaves_count :
+  forall (hypo : node -> list node) (syn : list node) (s : Z),
+         count_occ Z.eq_dec (leaves hypo syn) s =
+         match hypo s with
+         | [] => count_occ Z.eq_dec syn s
+         | _ :: _ => 0
+         end.
+Proof. exact (@leaves_count). Qed.
+Print Assumptions C13_leaves_count.
+
+(* ---- simulate_root on every graph: the simulated root is appended to every hypernym path; depths grow by one *)
+Theorem C13_gen_simroot_all_graphs :
+  forall (hyp : node -> list node) (f : nat) (x : node) (incl : bool),
+         x <> root ->
+         hypernym_paths_gen hyp f x true incl =
+         option_map add_root (hypernym_paths_gen hyp f x false incl).
+Proof. exact (@gen_simroot_all_graphs). Qed.
+Print Assumptions C13_gen_simroot_all_graphs.
+
+Theorem C13_gen_simroot_at_root :
+  forall (hyp : node -> list node) (f : nat) (sr incl : bool),
+         hypernym_paths_gen hyp f root sr incl = Some (if incl then [[root]] else []).
+Proof. exact (@gen_simroot_at_root). Qed.
+Print Assumptions C13_gen_simroot_at_root.
+
+Theorem C13_min_depth_simroot :
+  forall (hyp : node -> list node) (f : nat) (x : node),
+         x <> root -> min_depth hyp f x true = option_map S (min_depth hyp f x false).
+Proof. exact (@min_depth_simroot). Qed.
+Print Assumptions C13_min_depth_simroot.
+
+Theorem C13_max_depth_simroot :
+  forall (hyp : node -> list node) (f : nat) (x : node),
+         x <> root -> max_depth hyp f x true = option_map S (max_depth hyp f x false).
+Proof. exact (@max_depth_simroot). Qed.
+Print Assumptions C13_max_depth_simroot.
+
+(* ---- simulate_root on acyclic graphs = computing, without simulate_root, in the graph with one added node above all roots ([hyp_top]): same paths in the same order, hence the same depths, common hypernyms, shortest paths and lowest common hypernyms; the extended graph is closed and acyclic *)
+Theorem C13_hyp_top_closed :
+  forall (hyp : node -> list node) (V : list node),
+         closed hyp V -> closed (hyp_top hyp) (root :: V).
+Proof. exact (@hyp_top_closed). Qed.
+Print Assumptions C13_hyp_top_closed.
+
+Theorem C13_hyp_top_acyclic :
+  forall hyp : node -> list node, acyclic hyp -> acyclic (hyp_top hyp).
+Proof. exact (@hyp_top_acyclic). Qed.
+Print Assumptions C13_hyp_top_acyclic.
+
+Theorem C13_hypernym_paths_gen_top :
+  forall (hyp : node -> list node) (V : list node),
+         closed hyp V ->
+         ~ In root V ->
+         acyclic hyp ->
+         forall (f1 f2 : nat) (x : node) (incl : bool) (ps1 ps2 : list (list node)),
+         In x V ->
+         hypernym_paths_gen hyp f1 x true incl = Some ps1 ->
+         hypernym_paths_gen (hyp_top hyp) f2 x false incl = Some ps2 -> ps1 = ps2.
+Proof. exact (@hypernym_paths_gen_top). Qed.
+Print Assumptions C13_hypernym_paths_gen_top.
+
+Theorem C13_hypernym_paths_gen_top_fuel_S :
+  forall (hyp : node -> list node) (V : list node),
+         closed hyp V ->
+         ~ In root V ->
+         acyclic hyp ->
+         forall (f : nat) (x : node) (incl : bool) (ps : list (list node)),
+         In x V ->
+         hypernym_paths_gen hyp f x true incl = Some ps ->
+         hypernym_paths_gen (hyp_top hyp) (S f) x false incl = Some ps.
+Proof. exact (@hypernym_paths_gen_top_fuel_S). Qed.
+Print Assumptions C13_hypernym_paths_gen_top_fuel_S.
+
+Theorem C13_min_depth_top :
+  forall (hyp : node -> list node) (V : list node),
+         closed hyp V ->
+         ~ In root V ->
+         acyclic hyp ->
+         forall (f1 f2 : nat) (x : node) (m1 m2 : nat),
+         In x V ->
+         min_depth hyp f1 x true = Some m1 -> min_depth (hyp_top hyp) f2 x false = Some m2 -> m1 = m2.
+Proof. exact (@min_depth_top). Qed.
+Print Assumptions C13_min_depth_top.
+
+Theorem C13_max_depth_top :
+  forall (hyp : node -> list node) (V : list node),
+         closed hyp V ->
+         ~ In root V ->
+         acyclic hyp ->
+         forall (f1 f2 : nat) (x : node) (m1 m2 : nat),
+         In x V ->
+         max_depth hyp f1 x true = Some m1 -> max_depth (hyp_top hyp) f2 x false = Some m2 -> m1 = m2.
+Proof. exact (@max_depth_top). Qed.
+Print Assumptions C13_max_depth_top.
+
+Theorem C13_common_hypernyms_top :
+  forall (hyp : node -> list node) (V : list node),
+         closed hyp V ->
+         ~ In root V ->
+         acyclic hyp ->
+         forall (f1 f2 : nat) (a b : node) (cs1 cs2 : list node),
+         In a V ->
+         In b V ->
+         common_hypernyms hyp f1 a b true = Some cs1 ->
+         common_hypernyms (hyp_top hyp) f2 a b false = Some cs2 -> cs1 = cs2.
+Proof. exact (@common_hypernyms_top). Qed.
+Print Assumptions C13_common_hypernyms_top.
+
+Theorem C13_shortest_path_len_top :
+  forall (hyp : node -> list node) (V : list node),
+         closed hyp V ->
+         ~ In root V ->
+         acyclic hyp ->
+         forall (f1 f2 : nat) (a b : node) (r1 r2 : option nat),
+         In a V ->
+         In b V ->
+         shortest_path_len hyp f1 a b true = Some r1 ->
+         shortest_path_len (hyp_top hyp) f2 a b false = Some r2 -> r1 = r2.
+Proof. exact (@shortest_path_len_top). Qed.
+Print Assumptions C13_shortest_path_len_top.
+
+Theorem C13_shortest_path_top :
+  forall (hyp : node -> list node) (V : list node),
+         closed hyp V ->
+         ~ In root V ->
+         acyclic hyp ->
+         forall (f1 f2 : nat) (a b : node) (r1 r2 : option (list node)),
+         In a V ->
+         In b V ->
+         shortest_path hyp f1 a b true = Some r1 ->
+         shortest_path (hyp_top hyp) f2 a b false = Some r2 -> r1 = r2.
+Proof. exact (@shortest_path_top). Qed.
+Print Assumptions C13_shortest_path_top.
+
+Theorem C13_lowest_common_hypernyms_top :
+  forall (hyp : node -> list node) (V : list node),
+         closed hyp V ->
+         ~ In root V ->
+         acyclic hyp ->
+         forall (f1 f2 : nat) (a b : node) (l1 l2 : list node),
+         In a V ->
+         In b V ->
+         lowest_common_hypernyms hyp f1 a b true = Some l1 ->
+         lowest_common_hypernyms (hyp_top hyp) f2 a b false = Some l2 -> l1 = l2.
+Proof. exact (@lowest_common_hypernyms_top). Qed.
+Print Assumptions C13_lowest_common_hypernyms_top.
+
+Theorem C13_simroot_canonical :
+  forall (hyp : node -> list node) (V : list node),
+         closed hyp V ->
+         ~ In root V ->
+         acyclic hyp ->
+         let F1 := S (S (length V)) in
+         let F2 := S (S (S (length V))) in
+         (forall (x : node) (incl : bool),
+          In x V ->
+          hypernym_paths_gen hyp F1 x true incl = hypernym_paths_gen (hyp_top hyp) F2 x false incl /\
+          hypernym_paths_gen hyp F1 x true incl <> None) /\
+         (forall x : node,
+          In x V ->
+          min_depth hyp F1 x true = min_depth (hyp_top hyp) F2 x false /\
+          max_depth hyp F1 x true = max_depth (hyp_top hyp) F2 x false) /\
+         (forall a b : node,
+          In a V ->
+          In b V ->
+          common_hypernyms hyp F1 a b true = common_hypernyms (hyp_top hyp) F2 a b false /\
+          shortest_hyp_paths hyp F1 a b true = shortest_hyp_paths (hyp_top hyp) F2 a b false /\
+          shortest_path_len hyp F1 a b true = shortest_path_len (hyp_top hyp) F2 a b false /\
+          shortest_path hyp F1 a b true = shortest_path (hyp_top hyp) F2 a b false /\
+          lowest_common_hypernyms hyp F1 a b true =
+          lowest_common_hypernyms (hyp_top hyp) F2 a b false).
+Proof. exact (@simroot_canonical). Qed.
+Print Assumptions C13_simroot_canonical.
+
+(* ---- "an error when nothing is shared unless simulate_root joins all roots": with simulate_root shortest_path is never an error and its length is the minimum of dist(a,c)+dist(b,c) over the common hypernyms c of the extended graph (which always include the simulated root) *)
+Theorem C13_shortest_path_len_simroot_spec :
+  forall (hyp : node -> list node) (V : list node),
+         closed hyp V ->
+         ~ In root V ->
+         acyclic hyp ->
+         forall (f : nat) (a b : node) (r : option nat),
+         In a V ->
+         In b V ->
+         shortest_path_len hyp f a b true = Some r ->
+         exists n : nat,
+           r = Some n /\
+           (exists (c : node) (da db : nat),
+              is_dist (hyp_top hyp) a c da /\ is_dist (hyp_top hyp) b c db /\ n = da + db) /\
+           (forall (c : node) (da db : nat),
+            is_dist (hyp_top hyp) a c da -> is_dist (hyp_top hyp) b c db -> n <= da + db).
+Proof. exact (@shortest_path_len_simroot_spec). Qed.
+Print Assumptions C13_shortest_path_len_simroot_spec.
+
+Theorem C13_shortest_path_len_simroot_bound :
+  forall (hyp : node -> list node) (V : list node),
+         closed hyp V ->
+         ~ In root V ->
+         acyclic hyp ->
+         forall (f : nat) (a b : node) (n da db : nat),
+         In a V ->
+         In b V ->
+         shortest_path_len hyp f a b true = Some (Some n) ->
+         is_dist (hyp_top hyp) a root da -> is_dist (hyp_top hyp) b root db -> n <= da + db.
+Proof. exact (@shortest_path_len_simroot_bound). Qed.
+Print Assumptions C13_shortest_path_len_simroot_bound.
+
+Theorem C13_reach_top_root :
+  forall (hyp : node -> list node) (V : list node),
+         closed hyp V -> acyclic hyp -> forall x : node, In x V -> reach (hyp_top hyp) x root.
+Proof. exact (@reach_top_root). Qed.
+Print Assumptions C13_reach_top_root.
+
+Theorem C13_reach_top_iff :
+  forall (hyp : node -> list node) (V : list node),
+         closed hyp V ->
+         ~ In root V ->
+         acyclic hyp ->
+         forall x c : node, In x V -> reach (hyp_top hyp) x c <-> c = root \/ reach hyp x c.
+Proof. exact (@reach_top_iff). Qed.
+Print Assumptions C13_reach_top_iff.
+
+Theorem C13_is_dist_top_iff :
+  forall (hyp : node -> list node) (V : list node),
+         closed hyp V ->
+         ~ In root V ->
+         forall (x c : node) (n : nat),
+         x <> root -> c <> root -> is_dist (hyp_top hyp) x c n <-> is_dist hyp x c n.
+Proof. exact (@is_dist_top_iff). Qed.
+Print Assumptions C13_is_dist_top_iff.
+
+Theorem C13_is_dist_top_root_iff :
+  forall (hyp : node -> list node) (V : list node),
+         closed hyp V ->
+         ~ In root V ->
+         forall (x : node) (n : nat),
+         x <> root ->
+         is_dist (hyp_top hyp) x root n <->
+         (exists k : nat,
+            n = S k /\
+            (exists q : list node, chain hyp x q /\ hyp (last q x) = [] /\ length q = k) /\
+            (forall q : list node, chain hyp x q -> hyp (last q x) = [] -> k <= length q)).
+Proof. exact (@is_dist_top_root_iff). Qed.
+Print Assumptions C13_is_dist_top_root_iff.
+
+(* ---- on cyclic graphs the equivalence with the extended graph fails (a path that stops because everything was visited also gets the root appended): refuted by a witness, so the acyclicity hypothesis above is needed *)
+Theorem C13_gen_top_cyclic_refuted :
+  hypernym_paths_gen cyc2 4 1%Z true false = Some [[2%Z; 0%Z]] /\
+         hypernym_paths_gen (hyp_top cyc2) 4 1%Z false false = Some [[2%Z]] /\
+         hypernym_paths_gen cyc2 4 1%Z true true = Some [[1%Z; 2%Z; 0%Z]] /\
+         hypernym_paths_gen (hyp_top cyc2) 4 1%Z false true = Some [[1%Z; 2%Z]] /\
+         min_depth cyc2 4 1%Z true = Some 2 /\
+         min_depth (hyp_top cyc2) 4 1%Z false = Some 1 /\
+         common_hypernyms cyc2 4 1%Z 2%Z true = Some [0%Z; 1%Z; 2%Z] /\
+         common_hypernyms (hyp_top cyc2) 4 1%Z 2%Z false = Some [1%Z; 2%Z].
+Proof. exact (@gen_top_cyclic_refuted). Qed.
+Print Assumptions C13_gen_top_cyclic_refuted.
+
+Theorem C13_gen_top_needs_acyclic :
+  ~
+         (forall (hyp : node -> list node) (V : list node) (f1 f2 : nat)
+            (x : node) (incl : bool) (ps1 ps2 : list (list node)),
+          closed hyp V ->
+          ~ In root V ->
+          In x V ->
+          hypernym_paths_gen hyp f1 x true incl = Some ps1 ->
+          hypernym_paths_gen (hyp_top hyp) f2 x false incl = Some ps2 -> ps1 = ps2).
+Proof. exact (@gen_top_needs_acyclic). Qed.
+Print Assumptions C13_gen_top_needs_acyclic.
+
+Theorem C13_simroot_dag_sanity :
+  hypernym_paths_gen dag4 6 1%Z true true = Some [[1%Z; 3%Z; 0%Z]; [1%Z; 2%Z; 4%Z; 0%Z]] /\
+         hypernym_paths_gen (hyp_top dag4) 7 1%Z false true =
+         Some [[1%Z; 3%Z; 0%Z]; [1%Z; 2%Z; 4%Z; 0%Z]] /\
+         shortest_path dag4 6 3 4 false = Some None /\
+         shortest_path dag4 6 3 4 true = Some (Some [0%Z; 4%Z]) /\
+         shortest_path (hyp_top dag4) 7 3 4 false = Some (Some [0%Z; 4%Z]) /\
+         min_depth dag4 6 1%Z false = Some 1 /\
+         min_depth dag4 6 1%Z true = Some 2 /\ min_depth (hyp_top dag4) 7 1%Z false = Some 2.
+Proof. exact (@simroot_dag_sanity). Qed.
+Print Assumptions C13_simroot_dag_sanity.
 
